@@ -552,8 +552,26 @@ where for<'a> &'a R: EucRingOps<R> {
     let maxdim = maxdim.min(R::MAXDIM);
     let (m, n) = rand_dims(r, maxdim);
     let cls = if R::MACHINE && R::CLASSES > 1 { if r.chance(1, 40) { 1 } else { 0 } } else { r.below(R::CLASSES) };
-    let kind = r.below(10);
+    let kind = r.below(12);
     match kind {
+        10 | 11 => { // smooth (elementary-divisor style) diagonal: entries 2^a 3^b 5^c share factors pairwise but are rarely a
+                     // divisibility chain, so the gcd/lcm sweeps of diag_normalize have real work at every position
+            let k = m.min(n);
+            let small = |x: usize| -> R { let mut v = R::zero(); for _ in 0..x { v = &v + &R::one(); } v };
+            let mut dm = M { m, n, a: vec![vec![R::zero(); n]; m] };
+            for i in 0..k {
+                if r.chance(1, 8) { continue }
+                let mut e = R::one();
+                for p in [2usize, 3, 5] { for _ in 0..r.below(4) { e = &e * &small(p); } }
+                if r.chance(1, 4) { e = -e; }
+                dm.a[i][i] = e;
+            }
+            if r.bool() { (dm, None, "smoothdiag".into()) } else {
+                let u = rand_unimodular::<R>(r, m, 0, m + 1);
+                let v = rand_unimodular::<R>(r, n, 0, n + 1);
+                (mm(&mm(&u, &dm), &v), None, "smoothdiag.conj".into())
+            }
+        }
         0 => { // zero matrix
             let a = M { m, n, a: vec![vec![R::zero(); n]; m] };
             (a, Some(vec![R::zero(); m.min(n)]), "zero".into())
